@@ -202,6 +202,55 @@ pub fn seq_child(seq: &str) -> i32 {
     0
 }
 
+/// values used by the first-use-order part: the first two of a deliberately tiny domain
+fn first_use_values(ty: &Ty) -> Vec<Val> {
+    refmodel::values::values_small(ty, &refmodel::values::Params { leaf_k: 2, seq_len: 1, elem_k: 1, cap: 4, rec_depth: 1 }).into_iter().take(2).collect()
+}
+
+/// one encode + decode of a table row, judged against the model (not against an earlier run)
+fn first_use_check(e: &bridge::Entry, v: &Val) -> Option<String> {
+    let r = &(e.enc)(v, &[Sink::ToByteVec])[0];
+    let model = ref_encode(&e.ty, &r.actual);
+    match (&r.out, &model) {
+        (Out::Ok(b), Ok(mb)) => {
+            if *b != mb.b {
+                return Some(format!("encode gives {} where the format prescribes {}", hex(b), hex(&mb.b)));
+            }
+            let d = (e.dec)(b);
+            match &d.out {
+                Out::Ok(back) if canon(&e.ty, back) == canon(&e.ty, &with_transient_defaults(&e.ty, &r.actual)) => None,
+                o => Some(format!("decode of {} gives {}", hex(b), format!("{o:?}").chars().take(160).collect::<String>())),
+            }
+        }
+        (Out::Panic(p), _) => Some(format!("encode panics: {p}")),
+        (Out::Err(_), Err(_)) => None,
+        // values the format cannot express have no prescribed outcome
+        (_, Err(EncErr::Unrepresentable(_))) => None,
+        (o, m) => Some(format!("encode gives {} where the model gives {}", o.class(), if m.is_ok() { "Ok" } else { "Err" })),
+    }
+}
+
+/// child: in this fresh process use table row `idx` first, then every row of the table once;
+/// prints one line per row whose result is not what the format prescribes
+pub fn first_child(idx: usize) -> i32 {
+    let u = common::load();
+    let first = &u.entries[idx];
+    for v in first_use_values(&first.ty) {
+        if let Some(m) = first_use_check(first, &v) {
+            println!("MISMATCH\t{}\t{}", first.name, m);
+        }
+    }
+    for e in &u.entries {
+        for v in first_use_values(&e.ty) {
+            if let Some(m) = first_use_check(e, &v) {
+                println!("MISMATCH\t{}\t{}", e.name, m);
+            }
+        }
+    }
+    println!("ROWS\t{}", u.entries.len());
+    0
+}
+
 fn hex_full(b: &[u8]) -> String {
     b.iter().map(|x| format!("{x:02x}")).collect()
 }
@@ -332,6 +381,65 @@ pub fn run(tier: &str, only: Option<String>) -> i32 {
                     st.bump("encode-twice:identical");
                 }
             }
+        });
+        run.stats.merge(st);
+    }
+
+    // (f) first-use order: for every row A of the table, a fresh process that uses A first and then
+    // every row once; whatever a first use leaves behind (statics, thread-locals, caches) must not
+    // change what any later call returns. Covers all ordered pairs (first-used type, later type).
+    let first_rows: Vec<usize> = (0..u.entries.len())
+        .filter(|i| match &run.only {
+            None => true,
+            Some(k) => *k == format!("first:{}", u.entries[*i].name),
+        })
+        .collect();
+    {
+        let total_rows = u.entries.len();
+        let st = par_items(&first_rows, Some(bridge::rt::hang_limit()), &|_| {}, &|i: &usize, st: &mut Stats| {
+            let name = &u.entries[*i].name;
+            let mut ch = std::process::Command::new(&me)
+                .arg("C18-first")
+                .arg(i.to_string())
+                .stdout(std::process::Stdio::piped())
+                .stderr(std::process::Stdio::null())
+                .spawn()
+                .expect("spawn");
+            let out = {
+                // read while waiting (the pipe of a chatty child must not fill up)
+                use std::io::Read;
+                let mut so = ch.stdout.take().expect("stdout");
+                let h = std::thread::spawn(move || {
+                    let mut s = String::new();
+                    let _ = so.read_to_string(&mut s);
+                    s
+                });
+                if bridge::rt::wait_with_timeout(&mut ch, std::time::Duration::from_secs(300)).is_none() {
+                    st.violate(format!("C18 first-use-order process does not terminate first={name}"), format!("first:{name}"), json!({}));
+                    return;
+                }
+                h.join().unwrap_or_default()
+            };
+            st.states += 1;
+            st.transitions += total_rows as u64;
+            st.validated += total_rows as u64;
+            let complete = out.lines().any(|l| l.starts_with("ROWS\t"));
+            let mism: Vec<&str> = out.lines().filter(|l| l.starts_with("MISMATCH\t")).collect();
+            if !complete {
+                st.violate(format!("C18 first-use-order process died first={name}"), format!("first:{name}"), json!({"output_tail": out.chars().rev().take(300).collect::<String>().chars().rev().collect::<String>()}));
+                return;
+            }
+            if let Some(l) = mism.first() {
+                let p: Vec<&str> = l.split('\t').collect();
+                st.violate(
+                    format!("C18 first-use-order: a later call on {} returns something else than the format prescribes", p.get(1).unwrap_or(&"?")),
+                    format!("first:{name}"),
+                    json!({"first_used_type": name, "later_type": p.get(1), "problem": p.get(2), "rows_affected_in_this_process": mism.len()}),
+                );
+                return;
+            }
+            st.bump("first-use-order:all-later-calls-as-prescribed");
+            st.nontrivial += 1;
         });
         run.stats.merge(st);
     }
@@ -491,7 +599,7 @@ pub fn run(tier: &str, only: Option<String>) -> i32 {
         run.caps_hit.push("Miri data-race run not performed (VRACE_DIR not provided)".into());
     }
     run.stats.add("call_sequences_in_fresh_processes", seqs.len() as u64);
-    run.rule = format!("(a) every interleaving (shuttle DFS, no preemption bound) of 2{} threads each doing one of 7 calls, under three hook filters (string/ref tables; record open/finish and context creation; field writes/reads), metadata statics initialised under contention in every schedule; (b) all {} sequences of depth <= {} over 11 calls (one fails half-way through a record, one fills the reference table, one cites a reference that was never introduced), each in a fresh process; (c) every value of the universe encoded twice from the same instance. Oracle: every call returns what it returns alone and what the reference model prescribes. Non-trivial = schedules with >= 2 threads, sequences with >= 2 calls.", if thorough { " and 3" } else { "" }, seqs.len(), depth);
+    run.rule = format!("(a) every interleaving (shuttle DFS, no preemption bound) of 2{} threads each doing one of 7 calls, under three hook filters (string/ref tables; record open/finish and context creation; field writes/reads), metadata statics initialised under contention in every schedule; (b) all {} sequences of depth <= {} over 11 calls (one fails half-way through a record, one fills the reference table, one cites a reference that was never introduced), each in a fresh process; (c) every value of the universe encoded twice from the same instance; (f) for every row of the type table a fresh process that uses that row first and then every row once (all ordered pairs of first-used and later type). Oracle: every call returns what it returns alone and what the reference model prescribes. Non-trivial = schedules with >= 2 threads, sequences with >= 2 calls.", if thorough { " and 3" } else { "" }, seqs.len(), depth);
     run.bounds = json!({"threads": if thorough { 3 } else { 2 }, "sequence_depth": depth});
     run.extra.insert("supplementary_sampled_part".into(), json!("(d) 200 / 2000 fresh processes, 8 free-running OS threads each released by a barrier; this part SAMPLES schedules of the operating system and is not part of the exhaustive claim; (e) 4 / 48 Miri runs (one deterministic schedule per seed) of 3 / 4 real threads doing first-use and steady-state calls, with Miri's data-race detector as the monitor for unsynchronised accesses that the cooperative scheduler of (a) cannot see - also sampled"));
     run.assumptions = vec![
